@@ -5,6 +5,7 @@ CONSTANTS
   MaxOps = 3
   OpsAllowed <- AllOps
   Busy = 2
+  CallbackKinds <- MCKinds
 INVARIANT CallbacksOnce
 INVARIANT WaitTiming
 PROPERTY Final
